@@ -310,7 +310,7 @@ Proof.
     apply panics_in_bind; [unfold replica_status; cbn [panics_in]; intros r; destruct r; exact I|]. intros [my e]. cbn [fst snd].
     destruct e; [exact I|]. destruct my as [myrs|]; [|exact I].
     destruct (assoc cand (re_state env)) as [cst|]; [|cbn [panics_in]; unfold not_self_repoint; discriminate].
-    destruct (node_gtid cst) as [cg|]; [|cbn [panics_in]; unfold not_self_repoint; discriminate].
+    destruct (node_gtid cst) as [cg|]; [|exact I].
     destruct (slave_ahead _ _); [exact I|]. destruct (split_brained _ _ _); [cbn [panics_in]; intros; exact I|].
     destruct (behind_or_equal _ _); [|exact I].
     apply panics_in_bind; [apply pi_change_master; auto|]. intros [e|]; [exact I|]. apply panics_in_bind; [apply pi_exec|intros; exact I].
